@@ -72,7 +72,7 @@ _c('C18', 'Proved: the update order is non-queued first then queued sorted by th
           'Proved from any state satisfying the counts invariant (C18_offered_in_queue_order): while the queued vehicles are processed no plug count ever grows, so a vehicle that finds a plug free at its turn implies every '
           'earlier vehicle of that queue found one free at its own earlier turn; a vehicle that is offered the plug and whose update goes through is charging (C18_offered_and_updated_leaves_queue). '
           'Proved (C18_offered_plug_is_taken): under the counts and places invariants (both proved over all histories) a queued vehicle whose powertrain accepts the plug type and which finds it free cannot be refused, so an earlier waiting vehicle is never passed over. '
-          'Proved (C18_earlier_in_queue_is_charging, the combined statement on one update pass): if a later vehicle of the queued part finds a plug of a type free at its turn, every earlier vehicle waiting for that type that can use it is charging on it after its own turn. '
+          'Proved (C18_earlier_in_queue_is_charging, the combined statement on one update pass): if a later vehicle of the queued part finds a plug of a type free at its turn, every earlier vehicle waiting for that type that can use it is charging on it after its own turn (premises shown satisfiable on a concrete world: C18_earlier_in_queue_premises_satisfiable). '
           'PARTIAL: a vehicle queueing for a plug type its powertrain cannot use is outside the theorem: correspondence + FIFO monitor.',
    'Coq proof: processing order (sortedness, permutation) + monotone plug counts over the queued pass + correspondence + FIFO trace monitor')
 _c('C19', 'Proved: each state-changing primitive files exactly one event carrying exactly the change (move distance = odometer growth, charge energy = level rise, price = amount moved, pickup stamped at the '
